@@ -266,6 +266,13 @@ inline Json outcomeToJson(const Outcome &o) {
   return j;
 }
 
+#ifdef VERIF_COV
+extern "C" void __gcov_dump(void);
+inline void covDump() { __gcov_dump(); }
+#else
+inline void covDump() {}
+#endif
+
 inline Outcome executeIsolated(Harness &h, const Json &plan) {
   int p[2];
   if (pipe(p) != 0) { perror("pipe"); _exit(2); }
@@ -279,6 +286,7 @@ inline Outcome executeIsolated(Harness &h, const Json &plan) {
     std::string js = outcomeToJson(o).dump();
     size_t off = 0;
     while (off < js.size()) { ssize_t n = ::write(p[1], js.data() + off, js.size() - off); if (n <= 0) break; off += (size_t)n; }
+    covDump();
     _exit(0);
   }
   close(p[1]);
@@ -434,6 +442,7 @@ inline void workerLoop(Harness &h, const DriverArgs &a, int w, int W, uint64_t s
       z["next"] = (unsigned long long)(i + 1);
       std::fprintf(out, "T %s\n", z.dump().c_str());
       std::fflush(out);
+      covDump();
       _exit(99);
     }
   }
@@ -443,6 +452,7 @@ inline void workerLoop(Harness &h, const DriverArgs &a, int w, int W, uint64_t s
   z["counters"] = c;
   std::fprintf(out, "Z %s\n", z.dump().c_str());
   std::fflush(out);
+  covDump();
   _exit(0);
 }
 
